@@ -71,3 +71,35 @@ package goat
 //@   ensures[C07.reset_cancels_handler] atlock(rpc.Id in h.streams) && (rpc.Reset_ != nil && rpc.Reset_.Type == "RST_STREAM") ==> done(cancels(atlock(h.streams[rpc.Id].cancel)))
 //@   ensures[C14.registered_iff_started C05.registered_iff_started] ncalls("go:(*github.com/avos-io/goat.handler).runStream") == old(ncalls("go:(*github.com/avos-io/goat.handler).runStream")) + 1
 //@     | ==> rpc.Id in h.streams
+
+//@ func goat.contextFromHeaders
+//@   nopanic[C12.nopanic C08.nopanic]
+//@   requires parent != nil && h != nil
+//@   loop 0 invariant[C08.first_valid_timeout_wins] forall j Int :: 0 <= j && j <= rangeindex ==> !(lower(h.Headers[j].Key) == "grpc-timeout" && G(h.Headers[j].Value))
+//@   ensures[C12.ctx_always_usable C10.ctx_descends C07.ctx_descends] result.0 != nil && result.1 != nil && desc(result.0, parent) && cancels(result.1) == result.0
+//@   ensures[C08.no_deadline_without_header] result.2 == nil && (forall j Int :: 0 <= j && j < len(h.Headers) ==> !(lower(h.Headers[j].Key) == "grpc-timeout" && DU(h.Headers[j].Value))) ==> ctx_newdl(result.0) == ctx_newdl(parent) && ctx_hasdl(result.0) == ctx_hasdl(parent)
+//@   ensures[C08.deadline_from_header] result.2 == nil && (exists j Int :: 0 <= j && j < len(h.Headers) && lower(h.Headers[j].Key) == "grpc-timeout" && G(h.Headers[j].Value)) ==> ctx_hasdl(result.0) && ctx_newdl(result.0)
+//@   ensures[C08.timeout_is_header_value] result.2 == nil && ctx_newdl(result.0) && !ctx_newdl(parent) ==> (exists j Int :: 0 <= j && j < len(h.Headers) && lower(h.Headers[j].Key) == "grpc-timeout" && DU(h.Headers[j].Value) && ctx_timeout(result.0) == timeoutNs(h.Headers[j].Value))
+
+//@ chanclass goat.unaryRpcChan msg: m.rpc != nil && m.rpc.Header != nil && m.info != nil && m.md != nil && m.md.Handler != nil
+//@ objinv[C12.objinv C01.objinv] goat.handler : isclass(self.unaryRpcChan, "goat.unaryRpcChan")
+
+//@ func goat.newHandler
+//@   nopanic[C12.nopanic]
+//@   requires ctx != nil && srv != nil && rw != nil && srv.services != nil
+//@   requires forall j Int :: 0 <= j && j < len(srv.statsHandlers) ==> srv.statsHandlers[j] != nil
+//@   makechan 0 tag 0
+//@   makechan 1 tag 0 class goat.unaryRpcChan
+//@   ensures[C10.conn_ctx_descends] result != nil && desc(result.ctx, ctx) && cancels(result.cancel) == result.ctx
+
+//@ func goat.(*handler).processUnaryRpc
+//@   nopanic[C12.nopanic]
+//@   requires rpc != nil && rpc.Header != nil && info != nil && md != nil && md.Handler != nil && clientCtx != nil
+//@   ensures[C01.response_envelope C06.unary_response C16.return_route C05.response_id] result != nil && result.Id == rpc.Id && result.Header != nil
+//@     | && result.Header.Source == rpc.Header.Destination && result.Header.Destination == rpc.Header.Source && result.Trailer != nil && result.Reset_ == nil
+//@   ensures[C01.handler_once C20.handler_once C12.handler_once] ncalls("fnfield:H.google.golang.org/grpc.MethodDesc.Handler") == old(ncalls("fnfield:H.google.golang.org/grpc.MethodDesc.Handler")) + 1
+//@   ensures[C03.success_has_no_status C06.unary_response] appErr == nil ==> result.Status == nil
+//@   ensures[C03.error_status] appErr != nil ==> result.Status != nil && (isStatus(appErr) ==> result.Status.Code == stCode(appErr) && result.Status.Message == stMsg(appErr) && result.Status.Details == stDetails(appErr))
+//@   ensures[C03.plain_error_text] appErr != nil && !isStatus(appErr) ==> result.Status.Code != 0 && result.Status.Message == errText(appErr)
+//@   ensures[C03.error_never_ok] appErr != nil ==> result.Status != nil && result.Status.Code != 0
+//@   ensures[C01.reply_body] bound("resp") && resp != nil && bound("err") && err == nil ==> result.Body != nil && result.Body.Data == protoBytes(resp)
